@@ -117,7 +117,7 @@ theorem bsel {s i : Nat} (h : i < s) : (if s = 1 then 0 else i) = i := by
 theorem crw1 (O Cg K g : Nat) : convReshapeWeight [O, Cg, K] g 1 = [O / g, g, Cg, K] := by
   simp [convReshapeWeight, setI, getI, posI, List.range, List.range.loop]
 
-theorem cri1 (N C L g : Nat) : convReshapeInput [N, C, L] g 1 = [1, 1, g, C / g, L] := by
+theorem cri1 (N C L g : Nat) : convReshapeInput [N, C, L] g 1 = [N, 1, g, C / g, L] := by
   simp [convReshapeInput, setI, getI, posI, List.range, List.range.loop]
 
 theorem crr1 (a b c d : Nat) : convReshapeReduce [a, b, c, d] 1 = [a, b * c, d] := by
@@ -138,7 +138,6 @@ theorem csa1 : convSumAxes 1 = [-1, -3] := by
 theorem cpad1 (p : Nat) : convPad 5 (.int p) 1 = [0,0,0,0,p,0,0,0,0,p] := by
   simp [convPad, List.range, List.range.loop]
 
-
 /-! ### the reshapes of the pipeline as index maps -/
 
 theorem lt_mul_of_lt {a b Og g : Nat} (ha : a < Og) (hb : b < g) : a * g + b < Og * g := by
@@ -146,38 +145,36 @@ theorem lt_mul_of_lt {a b Og g : Nat} (ha : a < Og) (hb : b < g) : a * g + b < O
   have h2 : (a + 1) * g = a * g + g := by ring
   omega
 
+/-- weight `(Og·g, Cg, K)` seen as `(Og, g, Cg, K)`: output channel `a·g + b` -/
 theorem rsh_weight {Og g Cg K a b c k : Nat} (ha : a < Og) (hb : b < g) (hc : c < Cg) (hk : k < K) :
     reshapeIdx [Og * g, Cg, K] [Og, g, Cg, K] [a, b, c, k] = [a * g + b, c, k] := by
   apply reshapeIdx_eq
   · simp only [InShape]; exact ⟨lt_mul_of_lt ha hb, hc, hk, trivial⟩
   · simp only [computeOffset, strides, prod]; ring
 
-theorem rsh_input {g Cg L b c j : Nat} (hb : b < g) (hc : c < Cg) (hj : j < L) :
-    reshapeIdx [1, g * Cg, L] [1, 1, g, Cg, L] [0, 0, b, c, j] = [0, b * Cg + c, j] := by
+/-- input `(N, g·Cg, L)` seen as `(N, 1, g, Cg, L)`: input channel `b·Cg + c` -/
+theorem rsh_input {N g Cg L n b c j : Nat} (hn : n < N) (hb : b < g) (hc : c < Cg) (hj : j < L) :
+    reshapeIdx [N, g * Cg, L] [N, 1, g, Cg, L] [n, 0, b, c, j] = [n, b * Cg + c, j] := by
   apply reshapeIdx_eq
-  · simp only [InShape]; refine ⟨by omega, ?_, hj, trivial⟩
-    rw [Nat.mul_comm g Cg]; rw [Nat.mul_comm b Cg]
-    have := lt_mul_of_lt (a := b) (b := c) (Og := g) (g := Cg) hb hc
-    rw [Nat.mul_comm g Cg, Nat.mul_comm b Cg] at this; exact this
+  · simp only [InShape]; exact ⟨hn, lt_mul_of_lt hb hc, hj, trivial⟩
   · simp only [computeOffset, strides, prod]; ring
 
-theorem rsh_reduce {Og g Lo o l : Nat} (hg : 0 < g) (ho : o < Og * g) (hl : l < Lo) :
-    reshapeIdx [1, Og, g, Lo] [1, Og * g, Lo] [0, o, l] = [0, o / g, o % g, l] := by
+/-- merged output `(N, Og·g, Lo)` read from `(N, Og, g, Lo)`: `o ↦ (o / g, o % g)` -/
+theorem rsh_reduce {N Og g Lo n o l : Nat} (hg : 0 < g) (hn : n < N) (ho : o < Og * g) (hl : l < Lo) :
+    reshapeIdx [N, Og, g, Lo] [N, Og * g, Lo] [n, o, l] = [n, o / g, o % g, l] := by
   apply reshapeIdx_eq
   · simp only [InShape]
-    refine ⟨by omega, ?_, Nat.mod_lt _ hg, hl, trivial⟩
-    exact (Nat.div_lt_iff_lt_mul hg).2 ho
+    exact ⟨hn, (Nat.div_lt_iff_lt_mul hg).2 ho, Nat.mod_lt _ hg, hl, trivial⟩
   · simp only [computeOffset, strides, prod]
     have := Nat.div_add_mod o g
-    calc Og * g * (Lo * 1) * 0 + (Lo * 1 * o + (1 * l + 0)) = Lo * o + l := by ring
-      _ = Lo * (g * (o / g) + o % g) + l := by rw [this]
+    calc Og * g * (Lo * 1) * n + (Lo * 1 * o + (1 * l + 0)) = Og * g * Lo * n + (Lo * o + l) := by ring
+      _ = Og * g * Lo * n + (Lo * (g * (o / g) + o % g) + l) := by rw [this]
       _ = _ := by ring
 
 theorem rsh_bias {O o : Nat} (ho : o < O) : reshapeIdx [O] [O, 1] [o, 0] = [o] := by
   apply reshapeIdx_eq
   · simp only [InShape]; exact ⟨ho, trivial⟩
   · simp only [computeOffset, strides, prod]
-
 
 /-! ### stage 1: the weight -/
 
@@ -212,6 +209,13 @@ theorem awArr_shape {w : Arr Int} {Og g Cg K : Nat} (hK : 0 < K) {dil : PArg} (h
     simp [awArr, rwArr, dilV, expandV, expandShape, cwa1, convExpandSpacing, posI]
     ring
 
+theorem div_lt_of_lt_dil {k' K d : Nat} (hK : 0 < K) (hd : 0 < d) (h : k' < (K - 1) * d + 1) : k' / d < K := by
+  obtain ⟨K', rfl⟩ : ∃ K', K = K' + 1 := ⟨K - 1, by omega⟩
+  rw [Nat.div_lt_iff_lt_mul hd]
+  have e : (K' + 1) * d = K' * d + d := by ring
+  simp only [Nat.add_sub_cancel] at h
+  rw [e]; omega
+
 theorem awArr_get {w : Arr Int} {Og g Cg K : Nat} (hw : w.shape = [Og * g, Cg, K]) (hK : 0 < K) {dil : PArg} (hdil : PosForm dil)
     {a b c k' : Nat} (ha : a < Og) (hb : b < g) (hc : c < Cg) (hk : k' < (K - 1) * dilV dil + 1) :
     (awArr w Og g Cg K dil).get [a, b, c, k'] = if k' % dilV dil = 0 then w.get [a * g + b, c, k' / dilV dil] else 0 := by
@@ -221,22 +225,14 @@ theorem awArr_get {w : Arr Int} {Og g Cg K : Nat} (hw : w.shape = [Og * g, Cg, K
     simp only [Nat.mod_one, if_true, Nat.div_one, awArr, rwArr, hw]
     rw [rsh_weight ha hb hc hk']
   · simp only [dilV] at hk ⊢
+    have hk' := div_lt_of_lt_dil hK hd hk
     obtain ⟨d', rfl⟩ : ∃ d', d = d' + 1 := ⟨d - 1, by omega⟩
     simp only [awArr, rwArr, expandV, expandGet, cwa1, convExpandSpacing, List.replicate, List.zip_cons_cons, List.zip_nil_right, expandIdx, posI,
       List.length_cons, List.length_nil]
     by_cases hm : k' % (d' + 1) = 0
-    · have hk' : k' / (d' + 1) < K := by
-        obtain ⟨K', rfl⟩ : ∃ K', K = K' + 1 := ⟨K - 1, by omega⟩
-        rw [Nat.div_lt_iff_lt_mul (Nat.succ_pos d')]
-        have e : (K' + 1) * (d' + 1) = K' * (d' + 1) + d' + 1 := by ring
-        simp only [Nat.add_sub_cancel] at hk
-        show k' < (K' + 1) * (d' + 1)
-        rw [e]
-        omega
-      simp [hm, hw]
+    · simp [hm, hw]
       rw [rsh_weight ha hb hc hk']
     · simp [hm]
-
 
 /-! ### stage 2: the input -/
 
@@ -245,19 +241,19 @@ def padVal : PArg → Nat | .none => 0 | .int p => p | .arr _ => 0
 /-- accepted forms: None or an integer -/
 def IntForm (a : PArg) : Prop := a = .none ∨ ∃ p, a = .int p
 
-def rinArr (x : Arr Int) (g Cg L : Nat) : Arr Int :=
-  ⟨[1, 1, g, Cg, L], fun d => x.get (reshapeIdx x.shape [1, 1, g, Cg, L] d)⟩
+def rinArr (x : Arr Int) (N g Cg L : Nat) : Arr Int :=
+  ⟨[N, 1, g, Cg, L], fun d => x.get (reshapeIdx x.shape [N, 1, g, Cg, L] d)⟩
 
-def ainArr (x : Arr Int) (g Cg L : Nat) (pad : PArg) : Arr Int :=
+def ainArr (x : Arr Int) (N g Cg L : Nat) (pad : PArg) : Arr Int :=
   match pad with
-  | .none => rinArr x g Cg L
-  | _ => ⟨[1, 1, g, Cg, L + padVal pad + padVal pad], padGet (rinArr x g Cg L) [0, 0, 0, 0, padVal pad]⟩
+  | .none => rinArr x N g Cg L
+  | _ => ⟨[N, 1, g, Cg, L + padVal pad + padVal pad], padGet (rinArr x N g Cg L) [0, 0, 0, 0, padVal pad]⟩
 
-theorem convInput1_eq {x : Arr Int} {g Cg L : Nat} (hx : x.shape = [1, g * Cg, L]) (hg : 0 < g) {pad : PArg} (hpad : IntForm pad) :
-    convInput 1 x pad g = .ok (ainArr x g Cg L pad) := by
+theorem convInput1_eq {x : Arr Int} {N g Cg L : Nat} (hx : x.shape = [N, g * Cg, L]) (hg : 0 < g) {pad : PArg} (hpad : IntForm pad) :
+    convInput 1 x pad g = .ok (ainArr x N g Cg L pad) := by
   have hdiv : g * Cg / g = Cg := Nat.mul_div_cancel_left _ hg
-  have hprod : prod x.shape = prod [1, 1, g, Cg, L] := by rw [hx]; simp only [prod]; ring
-  have hre := reshapeV_some (a := x) (dst := [1, 1, g, Cg, L]) (by simp) hprod
+  have hprod : prod x.shape = prod [N, 1, g, Cg, L] := by rw [hx]; simp only [prod]; ring
+  have hre := reshapeV_some (a := x) (dst := [N, 1, g, Cg, L]) (by simp) hprod
   unfold convInput
   rw [hx, cri1, hdiv, hre]
   rcases hpad with rfl | ⟨p, rfl⟩
@@ -265,44 +261,44 @@ theorem convInput1_eq {x : Arr Int} {g Cg L : Nat} (hx : x.shape = [1, g * Cg, L
   · simp only [List.length_cons, List.length_nil, Nat.reduceAdd, Nat.zero_add, padV, cpad1]
     simp [ainArr, padVal, padShape, rinArr]
 
-theorem ainArr_shape {x : Arr Int} {g Cg L : Nat} {pad : PArg} (hpad : IntForm pad) :
-    (ainArr x g Cg L pad).shape = [1, 1, g, Cg, L + 2 * padVal pad] := by
+theorem ainArr_shape {x : Arr Int} {N g Cg L : Nat} {pad : PArg} (hpad : IntForm pad) :
+    (ainArr x N g Cg L pad).shape = [N, 1, g, Cg, L + 2 * padVal pad] := by
   rcases hpad with rfl | ⟨p, rfl⟩
   · simp [ainArr, rinArr, padVal]
   · simp [ainArr, padVal]; omega
 
-theorem padIdx_1d {g Cg L p b c j : Nat} (hb : b < g) (hc : c < Cg) :
-    padIdx [0, 0, b, c, j] [1, 1, g, Cg, L] [0, 0, 0, 0, p]
-      = if j < p ∨ j ≥ L + p then none else some [0, 0, b, c, j - p] := by
+theorem padIdx_1d {N g Cg L p n b c j : Nat} (hn : n < N) (hb : b < g) (hc : c < Cg) :
+    padIdx [n, 0, b, c, j] [N, 1, g, Cg, L] [0, 0, 0, 0, p]
+      = if j < p ∨ j ≥ L + p then none else some [n, 0, b, c, j - p] := by
+  have h1 : ¬ N ≤ n := by omega
   have h2 : ¬ g ≤ b := by omega
   have h3 : ¬ Cg ≤ c := by omega
-  by_cases h : j < p ∨ j ≥ L + p <;> simp [padIdx, h2, h3, h]
+  by_cases h : j < p ∨ j ≥ L + p <;> simp [padIdx, h1, h2, h3, h]
 
-theorem ainArr_get {x : Arr Int} {g Cg L : Nat} (hx : x.shape = [1, g * Cg, L]) {pad : PArg} (hpad : IntForm pad)
-    {b c j : Nat} (hb : b < g) (hc : c < Cg) (hj : j < L + 2 * padVal pad) :
-    (ainArr x g Cg L pad).get [0, 0, b, c, j] = padRead x L (padVal pad) (b * Cg + c) j := by
+theorem ainArr_get {x : Arr Int} {N g Cg L : Nat} (hx : x.shape = [N, g * Cg, L]) {pad : PArg} (hpad : IntForm pad)
+    {n b c j : Nat} (hn : n < N) (hb : b < g) (hc : c < Cg) (hj : j < L + 2 * padVal pad) :
+    (ainArr x N g Cg L pad).get [n, 0, b, c, j] = padRead x L (padVal pad) n (b * Cg + c) j := by
   rcases hpad with rfl | ⟨p, rfl⟩
   · simp only [padVal, Nat.mul_zero, Nat.add_zero] at hj
     simp only [ainArr, rinArr, padRead, padVal, hx, Nat.zero_le, true_and, Nat.add_zero, hj, if_true, Nat.sub_zero]
-    rw [rsh_input hb hc hj]
+    rw [rsh_input hn hb hc hj]
   · simp only [padVal] at hj
-    simp only [ainArr, padVal, padGet, padRead, rinArr, padIdx_1d hb hc]
+    simp only [ainArr, padVal, padGet, padRead, rinArr, padIdx_1d hn hb hc]
     by_cases h : p ≤ j ∧ j < L + p
     · have h1 : ¬ (j < p ∨ j ≥ L + p) := by omega
       simp only [h1, if_false, h, and_self, if_true, hx]
-      rw [rsh_input hb hc (by omega)]
+      rw [rsh_input hn hb hc (by omega)]
     · have h1 : (j < p ∨ j ≥ L + p) := by omega
       simp only [h1, if_true, h, if_false]
 
-
 /-! ### stage 3: windows, multiply, sum, merge groups -/
 
-theorem sw_shape_in (g Cg Lp Kp : Nat) :
-    slidingWindowShape [1, 1, g, Cg, Lp] [Kp] [-1] = [1, 1, g, Cg, Lp - (Kp - 1), Kp] := by
+theorem sw_shape5 (a b c d Lp Kp : Nat) :
+    slidingWindowShape [a, b, c, d, Lp] [Kp] [-1] = [a, b, c, d, Lp - (Kp - 1), Kp] := by
   simp [slidingWindowShape, posI]
 
-theorem sw_shape_w (Og g Cg Kp : Nat) :
-    slidingWindowShape [Og, g, Cg, Kp] [Kp] [-1] = [Og, g, Cg, Kp - (Kp - 1), Kp] := by
+theorem sw_shape4 (a b c Kp : Nat) :
+    slidingWindowShape [a, b, c, Kp] [Kp] [-1] = [a, b, c, Kp - (Kp - 1), Kp] := by
   simp [slidingWindowShape, posI]
 
 theorem sw_idx5 (n0 n1 b c l k : Nat) : slidingWindowIdx 5 [-1] [n0, n1, b, c, l, k] = [n0, n1, b, c, l + k] := by
@@ -311,82 +307,79 @@ theorem sw_idx5 (n0 n1 b c l k : Nat) : slidingWindowIdx 5 [-1] [n0, n1, b, c, l
 theorem sw_idx4 (a b c z k : Nat) : slidingWindowIdx 4 [-1] [a, b, c, z, k] = [a, b, c, z + k] := by
   simp [slidingWindowIdx, slidingWindowIdx.go, posI]
 
-theorem bshape_core {Og g Cg Lo Kp : Nat} (hOg : 0 < Og) (hLo : 0 < Lo) :
-    bshape [1, 1, g, Cg, Lo, Kp] [Og, g, Cg, 1, Kp] = some [1, Og, g, Cg, Lo, Kp] := by
+theorem bshape_core {N Og g Cg Lo Kp : Nat} (hOg : 0 < Og) (hLo : 0 < Lo) :
+    bshape [N, 1, g, Cg, Lo, Kp] [Og, g, Cg, 1, Kp] = some [N, Og, g, Cg, Lo, Kp] := by
   have h1 : max Lo 1 = Lo := by omega
   have h2 : max 1 Og = Og := by omega
   simp [bshape, bshapeRev, h1, h2]
 
-
-theorem sum_shape (Og g Cg Lo Kp : Nat) :
-    removeAxes [5, 3] 0 [1, Og, g, Cg, Lo, Kp] = [1, Og, g, Lo] ∧ pickAxes [5, 3] 0 [1, Og, g, Cg, Lo, Kp] = [Cg, Kp] := by
+theorem sum_shape (N a b Cg Lo Kp : Nat) :
+    removeAxes [5, 3] 0 [N, a, b, Cg, Lo, Kp] = [N, a, b, Lo] ∧ pickAxes [5, 3] 0 [N, a, b, Cg, Lo, Kp] = [Cg, Kp] := by
   simp [removeAxes, pickAxes]
 
 theorem merge6 (n a b l c k : Nat) : mergeIdx [5, 3] 6 0 [n, a, b, l] [c, k] = [n, a, b, c, l, k] := by
   simp [mergeIdx]
 
-theorem convCore1 {ain aw : Arr Int} {Og g Cg Lp Kp : Nat} (hain : ain.shape = [1, 1, g, Cg, Lp]) (haw : aw.shape = [Og, g, Cg, Kp])
+theorem convCore1 {ain aw : Arr Int} {N Og g Cg Lp Kp : Nat} (hain : ain.shape = [N, 1, g, Cg, Lp]) (haw : aw.shape = [Og, g, Cg, Kp])
     (hOg : 0 < Og) (hg : 0 < g) (hKp : 0 < Kp) (hfit : Kp ≤ Lp) :
-    ∃ rs, convCore 1 ain aw = some rs ∧ rs.shape = [1, Og * g, Lp - (Kp - 1)] ∧
-      ∀ o l, o < Og * g → l < Lp - (Kp - 1) →
-        rs.get [0, o, l] = sumTo Cg (fun c => sumTo Kp (fun k =>
-          ain.get [0, 0, o % g, c, l + k] * aw.get [o / g, o % g, c, k])) := by
+    ∃ rs, convCore 1 ain aw = some rs ∧ rs.shape = [N, Og * g, Lp - (Kp - 1)] ∧
+      ∀ n o l, n < N → o < Og * g → l < Lp - (Kp - 1) →
+        rs.get [n, o, l] = sumTo Cg (fun c => sumTo Kp (fun k =>
+          ain.get [n, 0, o % g, c, l + k] * aw.get [o / g, o % g, c, k])) := by
   have e1 : Kp - (Kp - 1) = 1 := by omega
   have hLo : 0 < Lp - (Kp - 1) := by omega
   unfold convCore
-  simp only [haw, cks1, cwa1, csa1, slidingWindowV, hain, sw_shape_in, sw_shape_w, e1, binop, bshape_core hOg hLo,
+  simp only [haw, cks1, cwa1, csa1, slidingWindowV, hain, sw_shape5, sw_shape4, e1, binop, bshape_core hOg hLo,
     Option.map_some, Option.bind_some, sumAxes, List.length_cons, List.length_nil, List.map_cons, List.map_nil]
   have hp : posI (0 + 1 + 1 + 1 + 1 + 1 + 1) (-1) = 5 := by decide
   have hp3 : posI (0 + 1 + 1 + 1 + 1 + 1 + 1) (-3) = 3 := by decide
-  simp only [hp, hp3, (sum_shape Og g Cg (Lp - (Kp - 1)) Kp).1, (sum_shape Og g Cg (Lp - (Kp - 1)) Kp).2, crr1]
+  simp only [hp, hp3, (sum_shape N Og g Cg (Lp - (Kp - 1)) Kp).1, (sum_shape N Og g Cg (Lp - (Kp - 1)) Kp).2, crr1]
   rw [reshapeV_some (by simp) (by simp only [prod]; ring)]
   refine ⟨_, rfl, rfl, ?_⟩
-  intro o l ho hl
+  intro n o l hn ho hl
   simp only []
-  rw [rsh_reduce hg ho hl, listSum_allIdx2]
+  rw [rsh_reduce hg hn ho hl, listSum_allIdx2]
   apply sumTo_congr; intro c hc
   apply sumTo_congr; intro k hk
   have hb : o % g < g := Nat.mod_lt _ hg
   have ha : o / g < Og := (Nat.div_lt_iff_lt_mul hg).2 ho
   simp only [Nat.reduceAdd, Nat.zero_add, merge6, bIdx, List.length_cons, List.length_nil, Nat.sub_self, List.drop_zero, List.drop_succ_cons,
-    List.zipWith_cons_cons, List.zipWith_nil_right, if_true, bsel hb, bsel hc, bsel hl, bsel hk, bsel ha, sw_idx5, sw_idx4, Nat.zero_add]
-
+    List.zipWith_cons_cons, List.zipWith_nil_right, if_true, bsel hn, bsel hb, bsel hc, bsel hl, bsel hk, bsel ha, sw_idx5, sw_idx4, Nat.zero_add]
 
 /-! ### stage 4: bias and stride -/
 
 def biasVal (bias : Option (Arr Int)) (o : Nat) : Int := match bias with | none => 0 | some b => b.get [o]
 
-theorem convBias1 {rs : Arr Int} {O Lo : Nat} (hrs : rs.shape = [1, O, Lo]) (hLo : 0 < Lo) (bias : Option (Arr Int))
+theorem convBias1 {rs : Arr Int} {N O Lo : Nat} (hrs : rs.shape = [N, O, Lo]) (hLo : 0 < Lo) (bias : Option (Arr Int))
     (hb : ∀ b, bias = some b → b.shape = [O]) :
-    ∃ ad, convBias 1 rs bias = some ad ∧ ad.shape = [1, O, Lo] ∧
-      ∀ o l, o < O → l < Lo → ad.get [0, o, l] = rs.get [0, o, l] + biasVal bias o := by
+    ∃ ad, convBias 1 rs bias = some ad ∧ ad.shape = [N, O, Lo] ∧
+      ∀ n o l, n < N → o < O → l < Lo → ad.get [n, o, l] = rs.get [n, o, l] + biasVal bias o := by
   cases bias with
-  | none => exact ⟨rs, rfl, hrs, fun o l _ _ => by simp [biasVal]⟩
+  | none => exact ⟨rs, rfl, hrs, fun n o l _ _ _ => by simp [biasVal]⟩
   | some b =>
     have hbs := hb b rfl
     have h1 : max Lo 1 = Lo := by omega
-    have hbsh : bshape [1, O, Lo] [O, 1] = some [1, O, Lo] := by simp [bshape, bshapeRev, h1]
+    have hbsh : bshape [N, O, Lo] [O, 1] = some [N, O, Lo] := by simp [bshape, bshapeRev, h1]
     unfold convBias
     simp only [hbs, crb1]
     rw [reshapeV_some (by simp) (by rw [hbs]; simp only [prod])]
     simp only [Option.bind_some, binop, hrs, hbsh, Option.map_some]
     refine ⟨_, rfl, rfl, ?_⟩
-    intro o l ho hl
+    intro n o l hn ho hl
     simp only [biasVal, hbs, bIdx, List.length_cons, List.length_nil, Nat.reduceAdd, Nat.zero_add, Nat.sub_self, List.drop_zero,
-      Nat.reduceSub, List.drop_succ_cons, List.zipWith_cons_cons, List.zipWith_nil_right, if_true, bsel ho, bsel hl,
+      Nat.reduceSub, List.drop_succ_cons, List.zipWith_cons_cons, List.zipWith_nil_right, if_true, bsel hn, bsel ho, bsel hl,
       rsh_bias ho]
 
 def strideVal : PArg → Nat | .none => 1 | .int s => s | .arr _ => 0
 
-theorem convStride1 {ad : Arr Int} {O Lo : Nat} (had : ad.shape = [1, O, Lo]) {stride : PArg} (hs : PosForm stride) :
-    (convStride 1 ad stride).shape = [1, O, (Lo + strideVal stride - 1) / strideVal stride] ∧
-      ∀ o l, (convStride 1 ad stride).get [0, o, l] = ad.get [0, o, l * strideVal stride] := by
+theorem convStride1 {ad : Arr Int} {N O Lo : Nat} (had : ad.shape = [N, O, Lo]) {stride : PArg} (hs : PosForm stride) :
+    (convStride 1 ad stride).shape = [N, O, (Lo + strideVal stride - 1) / strideVal stride] ∧
+      ∀ n o l, (convStride 1 ad stride).get [n, o, l] = ad.get [n, o, l * strideVal stride] := by
   rcases hs with rfl | ⟨s, hs, rfl⟩
   · simp [convStride, strideVal, had]
   · simp [convStride, strideVal, sliceStepV, sliceStepShape, sliceStepIdx, convSteps, had]
 
-
-/-! ### assembly: conv1d = the nested loop with the code's group assignment -/
+/-! ### assembly: conv1d = the nested loop -/
 
 theorem dilV_pos {a : PArg} (h : PosForm a) : 0 < dilV a := by
   rcases h with rfl | ⟨d, hd, rfl⟩ <;> simp [dilV, *]
@@ -411,17 +404,23 @@ theorem mul_lt_of_lt_ceil {l s n : Nat} (hs : 0 < s) (h : l < (n + s - 1) / s) :
     omega
   omega
 
-theorem convnd1_eq_codeLoop {x w : Arr Int} {bias : Option (Arr Int)} {Og g Cg L K : Nat} {stride padding dilation : PArg}
-    (hx : x.shape = [1, g * Cg, L]) (hw : w.shape = [Og * g, Cg, K]) (hb : ∀ b, bias = some b → b.shape = [Og * g])
+/-- `Σ_{k'} [d ∣ k'] F(k'/d, k')` over a dilated kernel of `K` taps -/
+theorem sumTo_dilate' (K d : Nat) (hK : 0 < K) (hd : 0 < d) (F : Nat → Nat → Int) :
+    sumTo ((K - 1) * d + 1) (fun k' => if k' % d = 0 then F (k' / d) k' else 0) = sumTo K (fun k => F k (k * d)) := by
+  obtain ⟨K', rfl⟩ : ∃ K', K = K' + 1 := ⟨K - 1, by omega⟩
+  simpa using sumTo_dilate K' d hd F
+
+theorem convnd1_eq_codeLoop {x w : Arr Int} {bias : Option (Arr Int)} {N Og g Cg L K : Nat} {stride padding dilation : PArg}
+    (hx : x.shape = [N, g * Cg, L]) (hw : w.shape = [Og * g, Cg, K]) (hb : ∀ b, bias = some b → b.shape = [Og * g])
     (hOg : 0 < Og) (hg : 0 < g) (hK : 0 < K) (hs : PosForm stride) (hp : IntForm padding) (hd : PosForm dilation)
     (hfit : (K - 1) * dilV dilation + 1 ≤ L + 2 * padVal padding) :
     ∃ r, convnd 1 x w bias stride padding dilation g = .ok r ∧
-      r.shape = [1, Og * g, outSize L K (strideVal stride) (padVal padding) (dilV dilation)] ∧
-      ∀ o l, o < Og * g → l < outSize L K (strideVal stride) (padVal padding) (dilV dilation) →
-        r.get [0, o, l] = conv1dLoop (grpCode g) x w bias L Cg K (strideVal stride) (padVal padding) (dilV dilation) o l := by
+      r.shape = [N, Og * g, outSize L K (strideVal stride) (padVal padding) (dilV dilation)] ∧
+      ∀ n o l, n < N → o < Og * g → l < outSize L K (strideVal stride) (padVal padding) (dilV dilation) →
+        r.get [n, o, l] = conv1dLoop (grpCode g) x w bias L Cg K (strideVal stride) (padVal padding) (dilV dilation) n o l := by
   have hdp := dilV_pos hd
   have hsp := strideVal_pos hs
-  obtain ⟨rs, hrs, hrss, hrsg⟩ := convCore1 (ain := ainArr x g Cg L padding) (aw := awArr w Og g Cg K dilation)
+  obtain ⟨rs, hrs, hrss, hrsg⟩ := convCore1 (ain := ainArr x N g Cg L padding) (aw := awArr w Og g Cg K dilation)
     (ainArr_shape hp) (awArr_shape hK hd) hOg hg (Nat.succ_pos _) hfit
   have hLo : 0 < L + 2 * padVal padding - ((K - 1) * dilV dilation + 1 - 1) := by omega
   obtain ⟨ad, had, hads, hadg⟩ := convBias1 hrss hLo bias hb
@@ -431,33 +430,29 @@ theorem convnd1_eq_codeLoop {x w : Arr Int} {bias : Option (Arr Int)} {Og g Cg L
     rw [convWeight1_eq hw hg, convInput1_eq hx hg hp]
     simp only [hrs, Option.bind_some, had]
   · rw [hst.1, out_arith hsp hfit]
-  · intro o l ho hl
+  · intro n o l hn ho hl
     rw [hst.2]
-    -- l * s is a stride-1 output position
     have hls : l * strideVal stride < L + 2 * padVal padding - ((K - 1) * dilV dilation + 1 - 1) := by
       apply mul_lt_of_lt_ceil hsp
       rw [out_arith hsp hfit]; exact hl
-    rw [hadg o _ ho hls, hrsg o _ ho hls]
-    unfold conv1dLoop
+    rw [hadg n o _ hn ho hls, hrsg n o _ hn ho hls]
+    unfold conv1dLoop grpCode
     congr 1
     apply sumTo_congr; intro c hc
     have hb' : o % g < g := Nat.mod_lt _ hg
     have ha' : o / g < Og := (Nat.div_lt_iff_lt_mul hg).2 ho
     have hog : o / g * g + o % g = o := by rw [Nat.mul_comm]; exact Nat.div_add_mod o g
     have step : ∀ k', k' < (K - 1) * dilV dilation + 1 →
-        (ainArr x g Cg L padding).get [0, 0, o % g, c, l * strideVal stride + k'] * (awArr w Og g Cg K dilation).get [o / g, o % g, c, k']
+        (ainArr x N g Cg L padding).get [n, 0, o % g, c, l * strideVal stride + k'] * (awArr w Og g Cg K dilation).get [o / g, o % g, c, k']
         = if k' % dilV dilation = 0 then
-            padRead x L (padVal padding) (grpCode g o * Cg + c) (l * strideVal stride + k') * w.get [o, c, k' / dilV dilation]
+            padRead x L (padVal padding) n (o % g * Cg + c) (l * strideVal stride + k') * w.get [o, c, k' / dilV dilation]
           else 0 := by
       intro k' hk'
-      rw [ainArr_get hx hp hb' hc (by omega), awArr_get hw hK hd ha' hb' hc hk', hog]
-      unfold grpCode
+      rw [ainArr_get hx hp hn hb' hc (by omega), awArr_get hw hK hd ha' hb' hc hk', hog]
       split <;> simp
     rw [sumTo_congr step]
-    have hK1 : K = (K - 1) + 1 := by omega
-    rw [sumTo_dilate (K - 1) (dilV dilation) hdp (fun k k' => padRead x L (padVal padding) (grpCode g o * Cg + c) (l * strideVal stride + k') * w.get [o, c, k])]
-    rw [← hK1]
-
+    exact sumTo_dilate' K (dilV dilation) hK hdp (fun k k' =>
+      padRead x L (padVal padding) n (o % g * Cg + c) (l * strideVal stride + k') * w.get [o, c, k])
 
 /-- where the code's group assignment `o % g` coincides with PyTorch's `o / (O/g)`: one group, or one output channel per group -/
 theorem grpCode_eq_grpSpec {Og g o : Nat} (hdom : g = 1 ∨ Og = 1) (ho : o < Og * g) : grpCode g o = grpSpec (Og * g) g o := by
@@ -470,7 +465,7 @@ theorem grpCode_eq_grpSpec {Og g o : Nat} (hdom : g = 1 ∨ Og = 1) (ho : o < Og
     rw [Nat.mod_eq_of_lt ho, Nat.div_self hg, Nat.div_one]
 
 theorem conv1dLoop_congr_grp {grp grp' : Nat → Nat} {o : Nat} (h : grp o = grp' o) (x w : Arr Int) (bias : Option (Arr Int))
-    (L Cg K s p d l : Nat) : conv1dLoop grp x w bias L Cg K s p d o l = conv1dLoop grp' x w bias L Cg K s p d o l := by
+    (L Cg K s p d n l : Nat) : conv1dLoop grp x w bias L Cg K s p d n o l = conv1dLoop grp' x w bias L Cg K s p d n o l := by
   unfold conv1dLoop; rw [h]
 
 /-- is the evaluation defined (not Nothing, not UB) -/
